@@ -200,13 +200,20 @@ class HistogramCollection(Container[Histogram1D], ObjectWithBinning):
         )
         members = list(histograms)
         binning = a_dict.get("binning")
-        return HistogramCollection(
-            *members,
-            # (Needed and allowed only as long as there is no member to take it from)
-            binning=BinningBase.from_dict(binning) if binning and not members else None,
+        if not binning:
+            # A document of an older version: the binning is that of the members
+            return HistogramCollection(
+                *members, name=a_dict.get("name"), title=a_dict.get("title")
+            )
+        # The collection's own binning; members are taken as they are (adaptive ones
+        # own their copies of it and may have grown since)
+        collection = HistogramCollection(
+            binning=BinningBase.from_dict(binning),
             name=a_dict.get("name"),
             title=a_dict.get("title"),
         )
+        collection.histograms.extend(members)
+        return collection
 
     def to_dict(self) -> Dict[str, Any]:
         return {
